@@ -172,30 +172,35 @@ Proof. exact w_nested_entity_ref_ok. Qed.
 Print Assumptions C05_T2_entity_ref_ok.
 
 (* ---- tier T3, first slice: aggregate queries and json selectors, at the level of results ----
-   agg_impl = what query.rs computes (every aggregate applied to the JSON text of the value), agg_spec = the aggregates
-   of the values.  Two classes are open: 9 (min / max compare texts), 10 (avg counts absent values as 0). *)
-Example C05_T3_minmax_refuted : spec_C05 w_K9_minmax (run_C05 w_K9_minmax) = false /\ known_C05 w_K9_minmax = [9].
-Proof. exact w_K9_minmax_refuted. Qed.
-Print Assumptions C05_T3_minmax_refuted.
-Example C05_T3_avg_refuted : spec_C05 w_K10_avg (run_C05 w_K10_avg) = false /\ known_C05 w_K10_avg = [10].
-Proof. exact w_K10_avg_refuted. Qed.
-Print Assumptions C05_T3_avg_refuted.
-(*     outside the two classes the whole answer (groups, having, order, first / skip) is the direct evaluation *)
-Theorem C05_T3_outside_known : forall rows q, known_C05 (CAgg rows q) = [] -> eval_agg agg_impl rows q = eval_agg agg_spec rows q.
-Proof. exact T3_outside_known. Qed.
-Print Assumptions C05_T3_outside_known.
-Theorem C05_T3_spec : forall rows q, known_C05 (CAgg rows q) = [] -> spec_C05 (CAgg rows q) (run_C05 (CAgg rows q)) = true.
+   agg_impl = what query.rs computes (SQL aggregates over the SQL value of the member, NULL left out), agg_spec = the
+   aggregates of the values.  Classes 9 (min / max compared JSON texts) and 10 (avg counted absent values as 0) were
+   repaired in /repo (b717988): the statements below carry no exclusion. *)
+Theorem C05_T3_agg_holds : forall g a, agg_impl g a = agg_spec g a.
+Proof. exact agg_holds. Qed.
+Print Assumptions C05_T3_agg_holds.
+(*     the whole answer (groups, having, order, first / skip) is the direct evaluation *)
+Theorem C05_T3_holds : forall rows q, eval_agg agg_impl rows q = eval_agg agg_spec rows q.
+Proof. exact T3_holds. Qed.
+Print Assumptions C05_T3_holds.
+Theorem C05_T3_spec : forall rows q, spec_C05 (CAgg rows q) (run_C05 (CAgg rows q)) = true.
 Proof. exact T3_spec. Qed.
 Print Assumptions C05_T3_spec.
-Theorem C05_T3_count_sum_holds : forall g a, match a with ACount | ASum _ => True | _ => False end -> agg_impl g a = agg_spec g a.
-Proof. exact T3_count_sum_holds. Qed.
-Print Assumptions C05_T3_count_sum_holds.
-Example C05_T3_nonvacuous : spec_C05 w_agg_having (run_C05 w_agg_having) = true /\ known_C05 w_agg_having = [] /\ wf_C05 w_agg_having = [1; 1].
+(*     the former witnesses of classes 9 and 10 satisfy the oracle (replayed on the real code on every run) *)
+Example C05_T3_minmax_holds : spec_C05 w_K9_minmax (run_C05 w_K9_minmax) = true /\ known_C05 w_K9_minmax = [].
+Proof. exact w_K9_minmax_holds. Qed.
+Print Assumptions C05_T3_minmax_holds.
+Example C05_T3_avg_holds : spec_C05 w_K10_avg (run_C05 w_K10_avg) = true /\ known_C05 w_K10_avg = [].
+Proof. exact w_K10_avg_holds. Qed.
+Print Assumptions C05_T3_avg_holds.
+Example C05_T3_having_ok : spec_C05 w_agg_having (run_C05 w_agg_having) = true /\ known_C05 w_agg_having = [] /\ wf_C05 w_agg_having = [1; 1].
 Proof. exact w_agg_having_ok. Qed.
-Print Assumptions C05_T3_nonvacuous.
+Print Assumptions C05_T3_having_ok.
 Example C05_T3_no_row_ok : spec_C05 w_agg_no_row (run_C05 w_agg_no_row) = true /\ known_C05 w_agg_no_row = [] /\ wf_C05 w_agg_no_row = [1; 1].
 Proof. exact w_agg_no_row_ok. Qed.
 Print Assumptions C05_T3_no_row_ok.
+Example C05_T3_order_name_ok : spec_C05 w_agg_order_name (run_C05 w_agg_order_name) = true /\ known_C05 w_agg_order_name = [] /\ wf_C05 w_agg_order_name = [1; 1].
+Proof. exact w_agg_order_name_ok. Qed.
+Print Assumptions C05_T3_order_name_ok.
 (*     json selectors: the model of the implementation IS the reference evaluator (no independent model of the SQL at
        this tier): the statement is tied to the code by the differential runs only *)
 Theorem C05_T3_jsel_partial : forall docs sels fs, spec_C05 (CJsel docs sels fs) (run_C05 (CJsel docs sels fs)) = true.
@@ -204,3 +209,10 @@ Print Assumptions C05_T3_jsel_partial.
 Example C05_T3_jsel_ok : spec_C05 w_jsel (run_C05 w_jsel) = true /\ known_C05 w_jsel = [] /\ wf_C05 w_jsel = [1; 1].
 Proof. exact w_jsel_ok. Qed.
 Print Assumptions C05_T3_jsel_ok.
+(* ---- an order key named by the field's own name while the field is selected under an alias only (T1) ---- *)
+Example C05_order_name_aliased_ok : spec_C05 w_order_name_aliased (run_C05 w_order_name_aliased) = true /\ known_C05 w_order_name_aliased = [] /\ wf_C05 w_order_name_aliased = [1; 1].
+Proof. exact w_order_name_aliased_ok. Qed.
+Print Assumptions C05_order_name_aliased_ok.
+Example C05_pages_name_aliased_ok : spec_C05 w_pages_name_aliased (run_C05 w_pages_name_aliased) = true /\ known_C05 w_pages_name_aliased = [] /\ wf_C05 w_pages_name_aliased = [1; 1].
+Proof. exact w_pages_name_aliased_ok. Qed.
+Print Assumptions C05_pages_name_aliased_ok.
